@@ -407,7 +407,7 @@ def check_C09(F, tier, t0):
     # a fixed-point name never reaches the evaluator as a variable only if the substitution replaces every occurrence in scope
     guarded(R, 'S replace_var', run_S, R, E, [RVF])
     guarded(R, 'S/O quantifier support', run_S, R, E, ['exists_impl', 'exists', 'all'])
-    guarded(R, 'X4 vars', engine_x.rule_X4, F, R, ('vars',))
+    guarded(R, 'X4 vars', engine_x.rule_X4, F, R, ('vars', 'export'))      # -r lists every variable of the text (vars, not free_vars)
     guarded(R, 'X3 order', engine_x.rule_X3, F, R)
     front_end(R, F)
     R.floor('functions', 5); R.floor('worlds', 16); R.floor('X4:extract_vars', 1); R.floor('X4:free_vars-fill', 1)
@@ -565,6 +565,7 @@ def check_C13(F, tier, t0):
     guarded(R, 'E4', engine_e.rule_E4, F, R)
     guarded(R, 'E6', engine_e.rule_E6, F, R)
     guarded(R, 'E8', engine_e.rule_E8, F, R)
+    guarded(R, 'X5', engine_x.rule_X5, F, R)      # in a shared environment a second formula's new variable must not take an id that is in use
     guarded(R, 'H', engine_e.rule_H, F, R)      # the table is keyed by the diagram: Eq / Ord / Hash of the symbol must read the same key
     def g():
         for (key, rule, msg, loc, cell) in engine_g.guard_regions(F, R):
@@ -622,6 +623,7 @@ def check_C15(F, tier, t0):
     guarded(R, 'N', engine_n.rule_queens, F, R)
     guarded(R, 'X8', engine_x.rule_X8, F, R, 'n_queens_gen')
     front_end(R, F)       # the emitted text means what the language's tokenizer and operator tables say it means
+    evaluation(R, make_engine(F))       # ... and what the evaluator and the operations it dispatches to compute for it
     R.floor('L-W:arithmetic-sites', 6); R.floor('L-W:ranges', 4); R.floor('N:loop-nests', 6); R.floor('N:proved-lines', 6); R.floor('N:families', 4)
     return finish(R, 'proof', tier, t0,
         'Affine loop-nest analysis, symbolic in n (nothing is instantiated): each of the constraint loops is read from THIR as `for i in a..b { [ for j in c..d { v_E(i,j,n), } ] OP 1 }`; '
@@ -638,6 +640,7 @@ def check_C16(F, tier, t0):
     guarded(R, 'L templates', engine_l.rule_max_clique_templates, F, R)
     guarded(R, 'X8', engine_x.rule_X8, F, R, 'max_clique_gen')
     front_end(R, F)       # the emitted text means what the language's tokenizer and operator tables say it means
+    evaluation(R, make_engine(F))       # ... and what the evaluator and the operations it dispatches to compute for it
     R.floor('L:complement-push-sites', 1); R.floor('L:truth-table-rows', 16); R.floor('L:vertex-list-uses', 3); R.floor('L:template-skeleton-pieces', 6)
     return finish(R, 'other', tier, t0,
         'Clauses: the complement-edge guard as a truth table over {v1==v2, -u, E(v1,v2), E(v2,v1), already-emitted(v2,v1)} equals the specification (directed: constrained '
@@ -700,6 +703,7 @@ def check_C17(F, tier, t0):
     guarded(R, 'U', engine_u.rule_sudoku, F, R)
     guarded(R, 'X8', engine_x.rule_X8, F, R, 'sudoku_gen')
     front_end(R, F)       # the emitted text means what the language's tokenizer and operator tables say it means
+    evaluation(R, make_engine(F))       # ... and what the evaluator and the operations it dispatches to compute for it
     guarded(R, 'L-W', engine_l.rule_width, F, R, 'sudoku_gen')
     R.floor('U:list-emissions', 4); R.floor('U:proved-families', 4); R.floor('U:families-required', 4); R.floor('U:hint-rule', 1); R.floor('U:whitespace-filter', 1)
     return finish(R, 'proof', tier, t0,
